@@ -222,9 +222,13 @@ func checkReachSearchLoop(r *Run, p *packages.Package, decls map[string]*ast.Fun
 	}, true)
 	bodyList := switchToIfChain(inlBody.List)
 	var loop *ast.ForStmt
-	for _, st := range bodyList {
+	for i, st := range bodyList {
 		if f, ok := st.(*ast.ForStmt); ok {
-			loop = f
+			// the body is read with its guard clauses nested (`if c { …; continue }; rest` as `if c { … } else { rest }`)
+			c := *f
+			c.Body = &ast.BlockStmt{Lbrace: f.Body.Lbrace, List: nestGuardClauses(f.Body.List), Rbrace: f.Body.Rbrace}
+			loop = &c
+			bodyList[i] = loop
 		}
 	}
 	if loop == nil || len(loop.Body.List) == 0 {
@@ -244,21 +248,42 @@ func checkReachSearchLoop(r *Run, p *packages.Package, decls map[string]*ast.Fun
 	}
 	// the head: `if next, hasNext := cursor.NextAdjacent(); !hasNext { … }`, or the same assignment as a statement of its
 	// own in front of the chain
-	as, ok := chain.Init.(*ast.AssignStmt)
-	if !ok {
+	var hasNextObj types.Object
+	if as, ok := chain.Init.(*ast.AssignStmt); ok && len(as.Lhs) == 2 {
+		if id, isID := as.Lhs[1].(*ast.Ident); isID {
+			hasNextObj = info.Defs[id]
+		}
+	}
+	if hasNextObj == nil {
+		// the same two-value definition as a statement of its own in front of the chain: `next, hasNext := c.Next()` or
+		// a spec of a var block
 		for _, st := range loop.Body.List[:chainIdx] {
-			if a, isAssign := st.(*ast.AssignStmt); isAssign && len(a.Lhs) == 2 && len(a.Rhs) == 1 && a.Tok == token.DEFINE {
-				if _, isCall := ast.Unparen(a.Rhs[0]).(*ast.CallExpr); isCall {
-					as, ok = a, true
+			switch a := st.(type) {
+			case *ast.AssignStmt:
+				if len(a.Lhs) == 2 && len(a.Rhs) == 1 && a.Tok == token.DEFINE {
+					if _, isCall := ast.Unparen(a.Rhs[0]).(*ast.CallExpr); isCall {
+						if id, isID := a.Lhs[1].(*ast.Ident); isID {
+							hasNextObj = info.Defs[id]
+						}
+					}
+				}
+			case *ast.DeclStmt:
+				if gd, isGen := a.Decl.(*ast.GenDecl); isGen {
+					for _, sp := range gd.Specs {
+						if vs, isVS := sp.(*ast.ValueSpec); isVS && len(vs.Names) == 2 && len(vs.Values) == 1 {
+							if _, isCall := ast.Unparen(vs.Values[0]).(*ast.CallExpr); isCall {
+								hasNextObj = info.Defs[vs.Names[1]]
+							}
+						}
+					}
 				}
 			}
 		}
 	}
-	if !ok || len(as.Lhs) != 2 {
+	if hasNextObj == nil {
 		r.Undecide("C15-R2: the loop's first branch does not take (next, hasNext) from the cursor")
 		return
 	}
-	hasNextObj := info.Defs[as.Lhs[1].(*ast.Ident)]
 	un, ok := ast.Unparen(chain.Cond).(*ast.UnaryExpr)
 	headIsExhausted := ok && un.Op == token.NOT
 	if headIsExhausted {
@@ -309,7 +334,14 @@ func checkReachSearchLoop(r *Run, p *packages.Package, decls map[string]*ast.Fun
 			if !ok || !nodeContains(ifs.Body, w) {
 				return true
 			}
-			if u, ok := ast.Unparen(ifs.Cond).(*ast.UnaryExpr); ok && u.Op == token.NOT {
+			cond := ast.Unparen(ifs.Cond)
+			// `if cursor.cacheable()`: a predicate of the cursor that is one boolean expression stands for it
+			if call, isCall := cond.(*ast.CallExpr); isCall {
+				if body := predicateBody(p, call); body != nil {
+					cond = ast.Unparen(body)
+				}
+			}
+			if u, ok := cond.(*ast.UnaryExpr); ok && u.Op == token.NOT {
 				if sel, ok := ast.Unparen(u.X).(*ast.SelectorExpr); ok {
 					if s := info.Selections[sel]; s != nil && s.Kind() == types.FieldVal {
 						gate, _ = s.Obj().(*types.Var)
@@ -338,7 +370,36 @@ func checkReachSearchLoop(r *Run, p *packages.Package, decls map[string]*ast.Fun
 		}
 		return true
 	})
+	// rootPredicate: a call of a cursor method whose body is `return s.<field> == nil` with the field a cursor (no ancestor)
+	rootPredicate := func(e ast.Expr) bool {
+		call, ok := ast.Unparen(e).(*ast.CallExpr)
+		if !ok {
+			return false
+		}
+		body := predicateBody(p, call)
+		if body == nil {
+			return false
+		}
+		be, ok := ast.Unparen(body).(*ast.BinaryExpr)
+		if !ok || be.Op != token.EQL {
+			return false
+		}
+		for _, pair := range [][2]ast.Expr{{be.X, be.Y}, {be.Y, be.X}} {
+			if sel, ok := ast.Unparen(pair[0]).(*ast.SelectorExpr); ok && isNilIdent(info, ast.Unparen(pair[1])) {
+				if roles.isCursor(info.TypeOf(sel)) {
+					return true
+				}
+			}
+		}
+		return false
+	}
 	isRootTest := func(cond ast.Expr, op token.Token) bool {
+		if op == token.EQL && rootPredicate(cond) {
+			return true
+		}
+		if u, isNot := ast.Unparen(cond).(*ast.UnaryExpr); isNot && u.Op == token.NOT && op == token.NEQ && rootPredicate(u.X) {
+			return true
+		}
 		be, ok := ast.Unparen(cond).(*ast.BinaryExpr)
 		if !ok || be.Op != op {
 			return false
@@ -350,7 +411,7 @@ func checkReachSearchLoop(r *Run, p *packages.Package, decls map[string]*ast.Fun
 		}
 		return false
 	}
-	nb := 0
+	nb, np := 0, 0
 	// classify: what a sequence of leaf statements does for the cursor
 	classify := func(leaves []ast.Node) string {
 		descends, merged, flagged := false, false, false
@@ -404,8 +465,12 @@ func checkReachSearchLoop(r *Run, p *packages.Package, decls map[string]*ast.Fun
 		}
 		var whats []string
 		bad := ""
+		np += len(paths)
 		for _, pth := range paths {
 			what := classify(pth.Leaves)
+			if what == "" && pathIsRootOnly(pth, isRootTest) {
+				what = "is taken by the root cursor only"
+			}
 			if what == "" && bad == "" {
 				bad = strings.Join(pth.Taken, ", ")
 				if bad == "" {
@@ -487,8 +552,41 @@ func checkReachSearchLoop(r *Run, p *packages.Package, decls map[string]*ast.Fun
 			r.Fail("C15-R3-cache-complete-reach", "reachCursor.Complete:propagates", cursorMethods[0].Pos(), "no method of the cursor passes %s on to the ancestor when a child's reach is rolled up: the ancestor inherits the child's incomplete reach and is cached as complete", gate.Name())
 		}
 	}
-	if nb < 3 {
-		r.Undecide("C15-R3: expected at least three adjacent-component branches in the search loop, found %d", nb)
+	if nb < 3 && np < 3 {
+		r.Undecide("C15-R3: expected at least three ways through the adjacent-component part of the search loop, found %d branches with %d paths", nb, np)
 	}
-	r.Floor("C15-R3-cache-complete-reach", 4)
+	r.Floor("C15-R3-cache-complete-reach", 3)
+}
+
+// pathIsRootOnly: one of the conditions taken along the path says the cursor is the root (as a conjunct of a condition
+// that held, or a disjunct of one that failed).
+func pathIsRootOnly(pth structuredPath, isRootTest func(cond ast.Expr, op token.Token) bool) bool {
+	var holds func(e ast.Expr, neg bool) bool
+	holds = func(e ast.Expr, neg bool) bool {
+		e = ast.Unparen(e)
+		if be, ok := e.(*ast.BinaryExpr); ok {
+			if (be.Op == token.LAND && !neg) || (be.Op == token.LOR && neg) {
+				return holds(be.X, neg) || holds(be.Y, neg)
+			}
+		}
+		if u, ok := e.(*ast.UnaryExpr); ok && u.Op == token.NOT {
+			if _, isCall := ast.Unparen(u.X).(*ast.CallExpr); !isCall {
+				return holds(u.X, !neg)
+			}
+			if neg {
+				return isRootTest(u.X, token.EQL)
+			}
+			return false
+		}
+		if neg {
+			return isRootTest(e, token.NEQ)
+		}
+		return isRootTest(e, token.EQL)
+	}
+	for _, c := range pth.Conds {
+		if holds(c.Expr, c.Neg) {
+			return true
+		}
+	}
+	return false
 }
